@@ -2,7 +2,7 @@
    of |int + frac| (corollary of phase_mul_sound with a factor in {-1, 0, 1}). *)
 From Coq Require Import ZArith Reals Psatz Floats.
 From Flocq Require Import Core BinarySingleNaN PrimFloat.
-From PB Require Import Proofs.TwoSumExact Model.Phase2 Proofs.Floor Proofs.DayFrac Proofs.DayFrac3 Proofs.PhaseCmp Proofs.PhaseCmpAll Proofs.TwoProduct Proofs.PhaseMul.
+From PB Require Import Proofs.TwoSumExact Model.Phase2 Proofs.Floor Proofs.DayFrac Proofs.DayFrac3 Proofs.DayFracTail Proofs.DayFracFold Proofs.PhaseCmp Proofs.PhaseCmpAll Proofs.TwoProduct Proofs.PhaseMul.
 Open Scope R_scope.
 
 Notation fexp := (FLT_exp (-1074) 53).
@@ -32,7 +32,7 @@ Theorem phase_abs_sound (i f : PrimFloat.float) :
   (V = 0 \/ bpow radix2 (-60) <= Rabs V) ->
   let '(d, g) := day_frac_gen i f (Some (fsign (PrimFloat.add i f))) None in
   fin d /\ fin g /\ (exists k : Z, R_of d = IZR k) /\
-  Rabs (R_of d + R_of g - Rabs V) <= bpow radix2 (-52) /\ Rabs (R_of g) <= / 2 + bpow radix2 (-50).
+  Rabs (R_of d + R_of g - Rabs V) <= bpow radix2 (-52) /\ Rabs (R_of g) <= / 2.
 Proof.
   intros Fi Ff Bi Bf V HV.
   assert (b52 : 4 <= bpow radix2 52) by (apply Rle_trans with (bpow radix2 2); [simpl; lra|apply bpow_le; lia]).
